@@ -208,7 +208,7 @@ def coq_make(targets, timeout=1500, keep_going=True):
     """Full .vo build (never -vos) of the given targets (paths relative to coq/)."""
     with Lock('coq'):
         coq_makefile()
-        cmd = ['make', '-j%d' % NPROC] + (['-k'] if keep_going else []) + list(targets)
+        cmd = ['make', '-j%d' % NPROC, 'COQC=' + os.path.join(VERIF, 'tools', 'coqc_t')] + (['-k'] if keep_going else []) + list(targets)
         p = sh(cmd, cwd=COQ, timeout=timeout)
     ok = p.returncode == 0 and all(os.path.exists(os.path.join(COQ, t)) for t in targets if t.endswith('.vo'))
     return ok, (p.stdout + p.stderr)
@@ -228,12 +228,44 @@ def coq_gate():
     return bad
 
 
+def regen_all(log=None):
+    """Regenerate every coq/gen/Gen_*.v from the current source tree (REPO): the scalar kernels
+    (cpp2v.py), the export forwarding table (export_table.py) and the field/global tables (tables.py).
+    Each generator caches by content hash and rewrites its files only when they change.
+    Returns a list of failure strings (empty = everything translated)."""
+    cdir = os.path.join(VERIF, 'cpp2v')
+    if cdir not in sys.path:
+        sys.path.insert(0, cdir)
+    fails = []
+    with Lock('regen'):
+        try:
+            import cpp2v as _c
+            ok, fl = _c.regenerate(repo=REPO, out=os.path.join(COQ, 'gen'))
+            fails += ['cpp2v: ' + f for f in fl]
+        except Exception as e:
+            fails.append('cpp2v crashed: %s' % str(e)[-800:])
+        try:
+            import export_table as _e
+            _e.regenerate(INC)
+        except Exception as e:
+            fails.append('export_table: %s' % str(e)[-800:])
+        try:
+            import tables as _t
+            _t.generate(None)
+        except Exception as e:
+            fails.append('tables: %s' % str(e)[-800:])
+    if log and fails:
+        log('regeneration failures: ' + ' | '.join(fails)[:1500])
+    return fails
+
+
 def coq_props(ctx, pid):
-    """Build props/Properties_<pid>.vo (and everything it depends on, including regenerated gen/*.v),
-    then re-compile the property file itself capturing the Print Assumptions output.
+    """Regenerate gen/*.v from the current tree, build props/Properties_<pid>.vo (and everything it
+    depends on), then re-compile the property file itself capturing the Print Assumptions output.
     Returns dict(ok, theorems, assumptions, log, failed)."""
     rel = 'props/Properties_%s.v' % pid
     t0 = time.time()
+    ctx.regen_failures = regen_all(ctx.log)
     ok, log = coq_make([rel + 'o'])
     src = read(os.path.join(COQ, rel))
     src_nc = re.sub(r'\(\*.*?\*\)', '', src, flags=re.S)
